@@ -165,6 +165,15 @@ def run(ctx):
         r = X.compare(P, lf, rf)
         _verdict(run, "C18.R5", lf, "parser built with the URL of the "
                  "resource it parses", r, m)
+    # <import src=...>: the reference is joined against the importing
+    # schema's own URL, gated, and *that* resource is loaded -- each time it
+    # is named, whatever other resources were imported under the same
+    # spelling
+    lf = m.fn(SP + ".BaseParser.start_import")
+    r = X.compare(P, lf, X.spec_method(P, "ref_schema.py", "start_import",
+                                       SP + ".BaseParser"))
+    _verdict(run, "C18.R5", lf, "import src: join, gate, load the joined "
+             "URL", r, m)
     bp = m.cls(SP + ".BaseParser")
     writers = [(m.owner(meth).qualname, src(st)) for st, meth in
                bp.fields.get("_url", [])]
